@@ -816,7 +816,18 @@ bool TypeAuditor::ViRecursion(Cursor iter) {
   }
 
   EndScope(iter->pos.start);
-  return SetCurrent(iterationValue.value());
+  // Note: the result is the initial value or a value of the iteration, its type covers both
+  auto resultType = env.Merge(std::get<Typification>(iterationValue.value()), std::get<Typification>(initType.value()));
+  if (!resultType.has_value()) {
+    OnError(
+      SemanticEID::typesNotEqual,
+      iter(iterationIndex).pos.start,
+      iterationValue.value(),
+      initType.value()
+    );
+    return false;
+  }
+  return SetCurrent(std::move(resultType.value()));
 }
 
 bool TypeAuditor::ViDecart(Cursor iter) {
